@@ -1,4 +1,5 @@
 import RdsProofs.Reach
+import RdsProofs.NormalShown
 import RdsProofs.WordedProofs
 import RdsProofs.AuditFrames
 /-!
@@ -11,6 +12,7 @@ Quantification: every table configuration `tb`, every history `ops` from initial
 (all 16 group types, any block values, any error codes — `Group` fields are unbounded naturals).
 -/
 -- THEOREM: RDS.C01
+-- THEOREM: RDS.C01_normal_shown
 -- THEOREM: RDS.C01_worded
 -- THEOREM: RDS.C01_never_unknown
 -- THEOREM: RDS.C01_received_nonneg
@@ -19,6 +21,11 @@ Quantification: every table configuration `tb`, every history `ops` from initial
 -- THEOREM: RDS.C01_never_unknown_getter
 -- THEOREM: RDS.C01_never_unknown_getter_suffix
 namespace RDS
+
+/-- "received is shown", for every history: with the extended check off at the moment of the call — whatever the mode was earlier — PI, PTY, TP (and TA, MS for group 0) delivered through error-free blocks are what the getters show after the call -/
+theorem C01_normal_shown (tb : Tabs) (h : EccOk tb) (ops : List Op) (op : Op) :
+    chkNormalScalars (recOf tb.cfg (run tb.cfg ops) op) = true :=
+  chkNormalScalars_ok tb _ op (reach tb h ops).2
 
 /-- C01 for every history and every next call -/
 theorem C01 (tb : Tabs) (h : EccOk tb) (ops : List Op) (op : Op) :
